@@ -947,5 +947,142 @@ theorem heldRun_spec {f : Font} (hw : WF f) {L : String} {l : Layer}
   have : glyphOrder (run f (.holdLayer L :: block)) = glyphOrder f := by rw [eB]; rfl
   rw [this]
 
+/-! ## E: the same block without a hold -/
+
+theorem blockStep_eq (s : List Name × List Note) (op : Op) :
+    (blockStep s op).2 = s.2 ++ (noteOf s.1 op).toList := by
+  cases op <;> simp only [blockStep, noteOf] <;> (try split) <;> (try split) <;> simp
+
+theorem blockStep_names_indep (gl : List Name) (p1 p2 : List Note) (op : Op) :
+    (blockStep (gl, p1) op).1 = (blockStep (gl, p2) op).1 := by
+  cases op <;> simp only [blockStep] <;> (try split) <;> (try split) <;> rfl
+
+theorem blockRun_prefix (gl : List Name) (p : List Note) (ops : List Op) :
+    (blockRun (gl, p) ops).1 = (blockRun (gl, []) ops).1 ∧
+    (blockRun (gl, p) ops).2 = p ++ (blockRun (gl, []) ops).2 := by
+  induction ops generalizing gl p with
+  | nil => simp [blockRun]
+  | cons op ops ih =>
+    rw [blockRun_cons, blockRun_cons]
+    have e1 : blockStep (gl, p) op = ((blockStep (gl, []) op).1, p ++ (noteOf gl op).toList) := by
+      apply Prod.ext
+      · exact blockStep_names_indep gl p [] op
+      · exact blockStep_eq (gl, p) op
+    have e2 : blockStep (gl, []) op = ((blockStep (gl, []) op).1, (noteOf gl op).toList) := by
+      apply Prod.ext
+      · rfl
+      · simpa using blockStep_eq (gl, []) op
+    rw [e1, e2]
+    obtain ⟨a1, a2⟩ := ih (blockStep (gl, []) op).1 (p ++ (noteOf gl op).toList)
+    obtain ⟨b1, b2⟩ := ih (blockStep (gl, []) op).1 (noteOf gl op).toList
+    exact ⟨by rw [a1, b1], by rw [a2, b2, List.append_assoc]⟩
+
+/-- one glyph operation on a calm layer: the names follow `blockStep`; if the layer posts a
+notification the font's callback runs at once, on the layers as they are right after the operation -/
+theorem calm_step_spec {f : Font} (hw : WF f) {L : String} {l : Layer}
+    (hget : AL.get? f.layers L = some l) (hc : l.calm) (op : Op) (hop : op.onLayer L = true) :
+    (step f op).1.layers = (setLayer f L { l with glyphs := (blockStep (l.glyphs, []) op).1 }).layers ∧
+    glyphOrder (step f op).1 =
+      (match noteOf l.glyphs op with
+       | some nt => specDeliver (anyLayerHas (step f op).1) (glyphOrder f) nt
+       | none => glyphOrder f) := by
+  obtain ⟨hh, hd, hq⟩ := hc
+  have ho := observed_of_get? hw hget
+  have same : (setLayer f L l).layers = f.layers := by rw [setLayer_get_self hget]
+  have key : ∀ (gl' : List Name) (nt : Note),
+      (deliver (setLayer f L { l with glyphs := gl' }) nt).layers = (setLayer f L { l with glyphs := gl' }).layers ∧
+      glyphOrder (deliver (setLayer f L { l with glyphs := gl' }) nt) =
+        specDeliver (anyLayerHas (deliver (setLayer f L { l with glyphs := gl' }) nt)) (glyphOrder f) nt := by
+    intro gl' nt
+    refine ⟨layers_deliver _ _, ?_⟩
+    rw [glyphOrder_deliver, anyLayerHas_congr (layers_deliver _ nt)]
+    rfl
+  have pc : ∀ (gl' : List Name) (nt : Note),
+      post (setLayer f L { l with glyphs := gl' }) L nt = deliver (setLayer f L { l with glyphs := gl' }) nt :=
+    fun gl' nt => post_calm (l := { l with glyphs := gl' }) (by rw [get?_setLayer, if_pos rfl]) hh hd ho nt
+  cases op with
+  | newGlyph L' g =>
+    simp only [Op.onLayer, decide_eq_true_eq] at hop; subst hop
+    simp only [step, newGlyph, hget, blockStep, noteOf, pc]
+    exact key _ _
+  | insertGlyph L' g =>
+    simp only [Op.onLayer, decide_eq_true_eq] at hop; subst hop
+    simp only [step]
+    rw [insertGlyph_calm hget ⟨hh, hd, hq⟩]
+    simp only [newGlyph, hget, blockStep, noteOf, pc]
+    exact key _ _
+  | delGlyph L' g =>
+    simp only [Op.onLayer, decide_eq_true_eq] at hop; subst hop
+    by_cases hm : g ∈ l.glyphs
+    · simp only [step, delGlyph, hget, hm, if_true, blockStep, noteOf, pc]
+      exact key _ _
+    · simp only [step, delGlyph, hget, hm, if_false, blockStep, noteOf]
+      exact ⟨same.symm, trivial⟩
+  | rename L' o n =>
+    simp only [Op.onLayer, decide_eq_true_eq] at hop; subst hop
+    by_cases hm : o ∈ l.glyphs
+    · by_cases hne : o = n
+      · subst hne
+        simp only [step, rename, hget, hm, if_true, blockStep, noteOf]
+        exact ⟨same.symm, trivial⟩
+      · simp only [step, rename, hget, hm, hne, if_true, if_false, blockStep, noteOf, pc]
+        exact key _ _
+    · simp only [step, rename, hget, hm, if_false, blockStep, noteOf]
+      exact ⟨same.symm, trivial⟩
+  | _ => simp [Op.onLayer] at hop
+
+theorem specDeliver_congr {ex ex' : Name → Bool} {nt : Note} (h : deliverArgs ex nt = deliverArgs ex' nt)
+    (o : List Name) : specDeliver ex o nt = specDeliver ex' o nt := by
+  unfold specDeliver; rw [h]
+
+/-- The block without a hold, on a calm layer of a well-formed font: if every callback got the
+answers `ex` gives, the order at the end is the start order after the delivery, with `ex`, of
+everything the block posted (nothing coalesced: each notification was delivered when posted). -/
+theorem immediate_as_deliverAll {ex : Name → Bool} {L : String} (block : List Op)
+    (hb : ∀ op ∈ block, op.onLayer L = true) {f : Font} (hw : WF f) {l : Layer}
+    (hget : AL.get? f.layers L = some l) (hc : l.calm) (ha : AnswersAs ex L f block) :
+    (run f block).layers = (setLayer f L { l with glyphs := (blockRun (l.glyphs, []) block).1 }).layers ∧
+    glyphOrder (run f block) = specDeliverAll ex (glyphOrder f) (blockRun (l.glyphs, []) block).2 := by
+  induction block generalizing f l with
+  | nil =>
+    simp only [run, blockRun, List.foldl_nil, specDeliverAll]
+    exact ⟨by rw [setLayer_get_self hget], trivial⟩
+  | cons op ops ih =>
+    have hop := hb op (List.mem_cons_self ..)
+    obtain ⟨s1, s2⟩ := calm_step_spec hw hget hc op hop
+    have hlg : layerGlyphs f L = l.glyphs := by simp [layerGlyphs, hget]
+    simp only [AnswersAs, answersAs, Bool.and_eq_true, hlg] at ha
+    obtain ⟨a1, a2⟩ := ha
+    have hw1 : WF (step f op).1 := wf_step hw op
+    have hget1 : AL.get? (step f op).1.layers L = some { l with glyphs := (blockStep (l.glyphs, []) op).1 } := by
+      rw [s1, get?_setLayer, if_pos rfl]
+    have hc1 : ({ l with glyphs := (blockStep (l.glyphs, []) op).1 } : Layer).calm := hc
+    obtain ⟨i1, i2⟩ := ih (fun o ho => hb o (List.mem_cons_of_mem _ ho)) hw1 hget1 hc1 a2
+    simp only [run]
+    rw [blockRun_cons]
+    have e2 : blockStep (l.glyphs, []) op = ((blockStep (l.glyphs, []) op).1, (noteOf l.glyphs op).toList) := by
+      apply Prod.ext
+      · rfl
+      · simpa using blockStep_eq (l.glyphs, []) op
+    obtain ⟨p1, p2⟩ := blockRun_prefix (blockStep (l.glyphs, []) op).1 (noteOf l.glyphs op).toList ops
+    rw [e2, p1, p2]
+    refine ⟨?_, ?_⟩
+    · rw [i1]
+      unfold setLayer
+      simp only
+      rw [s1]
+      unfold setLayer
+      simp only [set_set]
+    · rw [i2, specDeliverAll_append]
+      congr 1
+      cases hn : noteOf l.glyphs op with
+      | none => rw [hn] at s2; simpa [specDeliverAll] using s2
+      | some nt =>
+        rw [hn] at s2 a1
+        simp only [decide_eq_true_eq] at a1
+        simp only [Option.toList, specDeliverAll, List.foldl_cons, List.foldl_nil]
+        rw [s2]
+        exact specDeliver_congr a1 _
+
 end GlyphOrder
 end DefconModel
